@@ -14,19 +14,24 @@ RULE = ("sp.prod cases: A x, A^T y, transpose(A) y, <y, A x>, <A^T y, x>, to_den
         "(5 random duplicate-free patterns per shape in quick, 12 in thorough; densities 1/2..1/5; forced empty first/last rows and columns; "
         "the empty pattern), built from triplets in random order or from raw arrays, rational entries and vectors drawn from "
         "{-7..7}/{1..4} (never the all-ones vector), (b) tie-only: mismatched vector lengths (guards), duplicate positions, malformed raw "
-        "arrays, f64 / Complex<f64> instances (bitwise); "
+        "arrays; product-f64 / product-cplx (the f64 / Complex<f64> instances on random shapes <= 10x10) are NOT tie-only: the oracle judges them against the exact "
+        "products within a rounding-error bound, and they are tied to the float instance of the model (bit-identical as a rule; the tie counts a stream as `close`, not as a difference, when every float agrees within 1e-10 of the largest magnitude of its group of floats); "
         "round four, sp.hprod cases (the six observables A x, A^T y, transpose(A) y, <y, A x>, <A^T y, x>, to_dense on the matrix a history of insert / overwrite / scale / transpose steps leaves behind, "
-        "then scale(a) and all six again), every class of every dimension in every run, pairings rotate with the seed, one new case in four with a model term in the quick tier: "
-        "(c) structured-patterns: 25 named structures x shape classes 1x1, 1xn, nx1, wide, tall, square, 10x10 with value classes (all ones / all equal / opposite signs / stored zeros / 0,1,-1,2,1/2 / huge+tiny), "
+        "then scale(a) and all six again); thorough tier: every pairing; quick tier: one pairing in two (four for (d)), which ones rotates with the seed -- every named structure, shape class, "
+        "vector class and first operation class still occurs in every run, but the quick selection fixes the parity of the running index that picks the value class, the scale factor, the construction form "
+        "and the second operation of a pair, so one half of those values is seen per run, the half rotating with the seed; one new case in four carries a model term in the quick tier, one in two in the thorough tier "
+        "(counted per element kind in the float families, so that f64 and Complex<f64> both carry terms in every run): "
+        "(c) structured-patterns: 25 named structures x shape classes 1x1, 1xn, nx1, wide, tall, square, 10x10 with value classes (all ones / all equal / opposite signs / stored zeros / 0,1,-1,2,1/2 / huge+tiny; rotating with the seed), "
         "(d) vector-classes: ordered pairs of the classes of x and y (all zero, all ones, constant, unit vectors, alternating signs, first / last component zero, ramp, huge+tiny, ...), "
-        "(e) value-classes x scale factors 0, 1, -1, 2, 1/2, -3/2, 10^4, 10^-4, (f) history-op-pairs: ordered pairs of 14 operation classes before the products, (g) history-random: histories of 1..8 steps on shapes <= 10x10, "
-        "(h) structured-f64 / structured-cplx: the float instances with signed zeros, 2^+-200, +-i, axis-aligned and unit-modulus entries, judged against the exact products within a rounding-error bound "
-        "(the old f64 / Complex<f64> product cases are judged the same way now); "
+        "(e) value-classes x scale factors 0, 1, -1, 2, 1/2, -3/2, 10^4, 10^-4 (quick: every value class with half of the factors, rotating with the seed), (f) history-op-pairs: ordered pairs of 14 operation classes before the products "
+        "(quick: every first class with half of the second classes, rotating with the seed), (g) history-random: histories of 1..8 steps on shapes <= 10x10, "
+        "(h) structured-f64 / structured-cplx: the float instances with signed zeros, 2^+-200, +-i, axis-aligned and unit-modulus entries, half of them after a history of up to two steps (both kinds), judged against the exact products within a rounding-error bound "
+        "(the old f64 / Complex<f64> product cases are judged the same way now) and tied like (b) with 1e-12; "
         "distinct = distinct executor line; non-trivial = at least two stored entries and r,c >= 2")
 TRUSTED = c06.TRUSTED
 ASSUMPTIONS = ["Rust semantics of Vec/usize as modelled (checked indexing, debug-profile overflow checks)",
                "the sampled cases are where model and code were compared; the theorems are about the model"]
-UNPROVED = ["round two: sp_mul_backward_error / sp_tmul_backward_error / sp_mul_dense_backward_error (componentwise backward error gamma_{m_i}, m_i = stored entries of the row) in the standard model and at binary64 via Flocq; besides, floating-point products are tied bitwise to the float instance of the model",
+UNPROVED = ["round two: sp_mul_backward_error / sp_tmul_backward_error / sp_mul_dense_backward_error (componentwise backward error gamma_{m_i}, m_i = stored entries of the row) in the standard model and at binary64 via Flocq; besides, floating-point products are tied to the float instance of the model (bit-identical, or counted `close` within 1e-10 / 1e-12 of the largest magnitude of a group of floats)",
             "the products are proved equal to the textbook sums over sp_entry (the matrix the storage denotes) and sp_entry is proved to be the "
             "entry of to_dense for duplicate-free storage (to_dense_entry); the dense Matrix::multiply itself belongs to C03 and is not re-proved here",
             "with duplicate positions multiply sums the duplicates while to_dense keeps the last one -- outside the claim, tied only"]
@@ -42,8 +47,8 @@ MANIFEST = dict(
           "special value classes of entries, vectors (all zero, all ones, constant, unit vectors, ...) and scale factors (0, 1, -1, 2, 1/2), and the products of the matrix left behind by a history of "
           "insert / overwrite / scale / transpose steps, before and after a further scale; a dense "
           "Fraction reference searches for a failing input in the rational instance and, within a rounding-error bound, in the f64 and Complex<f64> instances."),
-    note=("Which theorems are discharged is reported by the check (theorems k/k) and listed in coq/Props/C07.v; the f64 instance is tied "
-          "bitwise and searched, not proved; mismatched lengths / malformed arrays are tied only."),
+    note=("Which theorems are discharged is reported by the check (theorems k/k) and listed in coq/Props/C07.v; the f64 / Complex<f64> instances are tied "
+          "(bit-identical or `close`) and searched within a rounding-error bound, not proved; mismatched lengths / malformed arrays are tied only."),
     technique="Coq proof over an abstract ring + model/implementation differential execution (vm_compute vs Rust executor) + dense reference search",
     design="7 (C07)")
 
@@ -137,9 +142,12 @@ def generate(rng, tier):
     return cases
 
 # ---------------------------------------------------------------------------------------------------------------------
-# Round four: structured classes.  Every class of every dimension of the input space (findings/special-values-specA/
-# C07-table.md) is drawn in every run; the pairings rotate with the seed.  A case carries a model term (tie) when
-# `termed(k)` says so: in the quick tier one case in four (which quarter rotates with the seed), in the thorough tier one in two.
+# Round four: structured classes of the input space (findings/special-values-specA/C07-table.md).  Thorough: every pairing.
+# Quick: keep(k, m) keeps one pairing in m, which ones rotates with the seed; the classes that index an enumeration (structure,
+# shape class, vector class, first operation) occur in every run, the ones picked by the running index k (value class, scale
+# factor, construction form, second operation) only with the parity keep() leaves: half per run, rotating with the seed.
+# A case carries a model term (tie) when `termed()` says so: in the quick tier one case in four (which quarter rotates with the
+# seed), in the thorough tier one in two; the float families count per element kind (`termed_kind`).
 # ---------------------------------------------------------------------------------------------------------------------
 SCALES = {'rat': [Fraction(0), Fraction(1), Fraction(-1), Fraction(2), Fraction(1, 2), Fraction(-3, 2), Fraction(10 ** 4), Fraction(1, 10 ** 4)],
           'f64': [0.0, -0.0, 1.0, -1.0, 2.0, 0.5, -1.5, 0.1, 2.0 ** 200, 2.0 ** -200],
@@ -174,10 +182,16 @@ def special_families(g0, thorough):
     def termed():
         count[0] += 1
         return (count[0] % 2 == seedrot % 2) if thorough else (count[0] % 4 == seedrot)
+    def termed_kind(j):
+        """the float families alternate f64 / cplx on the parity of h, so a counter shared by both kinds would give every model
+        term of a run to ONE kind; j = h // 2 counts the cases of one kind.  Pairs of j are selected (not single values) so that
+        both parities of j -- with and without a history, see (s6) -- carry terms in the same run."""
+        return ((j // 2) % 2 == seedrot % 2) if thorough else ((j // 2) % 4 == seedrot)
     rot = g0.below(60)
     def keep(k, m):
-        """quick tier: one pairing in m, which one rotates with the seed (every class of every single dimension still occurs
-        in every run because each class occurs in many pairings); thorough tier: all"""
+        """quick tier: one pairing in m, which one rotates with the seed (this fixes k mod m: what is selected by k itself --
+        FILLS[k % 8], SCALES[k % 8], the inner loop variable when its range has even length -- is seen by half per run);
+        thorough tier: all"""
         return thorough or ((k + rot) % m == 0)
     # (s1) every named structure on every shape class; value class, construction form, vector classes and scale factor cycle
     g = g0.fork("structured")
@@ -270,7 +284,7 @@ def special_families(g0, thorough):
             cells = c06.rand_cells(g, r, c, 1, 2)
             b = build_of(g, BUILD_FORMS[k % len(BUILD_FORMS)], r, c, cells, fill_values(g, elt, fill, len(cells), rand_val))
         ops = []
-        if h % 4 == 1:
+        if h % 4 in (1, 2):         # h = 1 mod 4: Complex<f64> with a history, h = 2 mod 4: f64 with a history
             occ = dict(zip(cells, b[3] if b[0] == 'V' else [t[2] for t in b[3]])); rr, cc = r, c
             for cls in (g.choice(OP_CLASSES), g.choice(OP_CLASSES)):
                 o = op_of(g, elt, cls, rr, cc, {p: 0 for p in occ}, rand_val)
@@ -279,7 +293,7 @@ def special_families(g0, thorough):
         rr, cc = final_shape(r, c, ops)
         x = vector_of(g, elt, VECTOR_CLASSES[(k // 3) % len(VECTOR_CLASSES)], cc, rand_val)
         y = vector_of(g, elt, VECTOR_CLASSES[(k // 5) % len(VECTOR_CLASSES)], rr, rand_val)
-        cases.append(mk_h(elt, b, ops, x, y, SCALES[elt][k % len(SCALES[elt])], "structured-" + elt, termed()))
+        cases.append(mk_h(elt, b, ops, x, y, SCALES[elt][k % len(SCALES[elt])], "structured-" + elt, termed_kind(h // 2)))
     return cases
 
 def case_from_json(j):
